@@ -50,7 +50,7 @@ func receiverIsStdStream(c ssa.CallInstruction) bool {
 func init() {
 	register(&Property{
 		ID:          "C17",
-		Explanation: "Decides structural necessary conditions of 'builds never clobber inputs; failed builds write nothing' on every path: R1 file-mutating calls of the standard library exist only at the reviewed owner sites (nothing in bundler, linker, resolver, cache, parsers or printers can touch the file system); R2 the build's WriteFile/MkdirAll are dominated by 'no errors' (shouldWriteFiles = !log.HasErrors(), computed after Compile and the cancel check), by args.write and by not-stdout; stdout output and result.Metafile/MangleCache are set only without errors; R3 the argument of os.Remove comes only from keys of the previous build's own hash table that are absent from the new one, and that table is only ever assigned from rebuildImpl's result; R4 Compile runs the input-collision check on every path that returns output files unless AllowOverwrite/WriteToStdout, both sides canonicalised by the same function, and AllowOverwrite is forced on only when not writing. R4 also decides that every file-namespace input is inserted into the input-path set unconditionally (no filter between the gates and the insert). R5 options-after-plugins: direct copies of BuildOptions fields into rebuildArgs are loaded after loadPlugins returned (one reviewed exception: the working directory). R6 skipped-write-is-verified (shared with C20/R10). R7 dotdot-scan-covers-last-segment: the string scanned for leading ../ segments has a separator appended, or a bare .. is tested. NOT covered: path arithmetic (whether a name template escapes outdir), symlink/case aliasing on a real file system, user-chosen --metafile/--mangle-cache paths.",
+		Explanation: "Decides structural necessary conditions of 'builds never clobber inputs; failed builds write nothing' on every path: R1 file-mutating calls of the standard library exist only at the reviewed owner sites (nothing in bundler, linker, resolver, cache, parsers or printers can touch the file system); R2 the build's WriteFile/MkdirAll are dominated by 'no errors' (shouldWriteFiles = !log.HasErrors(), computed after Compile and the cancel check), by args.write and by not-stdout; stdout output and result.Metafile/MangleCache are set only without errors; R3 the argument of os.Remove comes only from keys of the previous build's own hash table that are absent from the new one, and that table is only ever assigned from rebuildImpl's result; R4 Compile runs the input-collision check on every path that returns output files unless AllowOverwrite/WriteToStdout, both sides canonicalised by the same function, and AllowOverwrite is forced on only when not writing. R4 also decides that every file-namespace input is inserted into the input-path set unconditionally (no filter between the gates and the insert). R5 options-after-plugins: direct copies of BuildOptions fields into rebuildArgs are loaded after loadPlugins returned (one reviewed exception: the working directory). R6 skipped-write-is-verified (shared with C20/R10). R7 dotdot-scan-covers-last-segment: the string scanned for leading ../ segments has a separator appended, or a bare .. is tested. R8 extension-validation-rejects-separators: isValidExtension tests for `/` and `\\`. NOT covered: path arithmetic (whether a name template escapes outdir), symlink/case aliasing on a real file system, user-chosen --metafile/--mangle-cache paths.",
 		Run: func(p *Prog, tier string) []*RuleResult {
 			return []*RuleResult{c17Mutators(p), c17WriteGate(p), c17DeleteProvenance(p), c17OverwriteCheck(p), c17OptionsAfterPlugins(p), skippedWriteVerified(p, "C17/R6 skipped-write-is-verified"), c17DotDotScan(p), c17ExtensionNoSeparators(p)}
 		},
